@@ -36,6 +36,8 @@ def collect(ctx):
             d["expjson"] = vlib.unesc(r[2]) if len(r) > 2 else ""
         elif k == "EXPSTR":
             d["expstr"] = vlib.unesc(r[2]) if len(r) > 2 else ""
+        elif k == "PROBE":
+            d["probe"] = (r[2], vlib.unesc(r[3]), r[4])
         elif k == "DERIVED":
             d["derived"] = r[2]
         elif k == "CORPUS":
@@ -54,7 +56,7 @@ def collect(ctx):
 
 
 def run_model(ctx, lines):
-    p = subprocess.run([vlib.MODEL, "c18"], input="\n".join(lines) + "\n", stdout=subprocess.PIPE,
+    p = vlib.srun([vlib.MODEL, "c18"], input="\n".join(lines) + "\n", stdout=subprocess.PIPE,
                        stderr=subprocess.PIPE, text=True, timeout=3000)
     res = {}
     for l in p.stdout.split("\n"):
@@ -282,7 +284,7 @@ def run(ctx):
         # ---- Lean reader on the same lines (ties jsonRead/encode to the run, and to Python's reader)
         if has_json and len(jlines) == k and k > 0:
             sx = d["case"]
-            defs_vals = sx[sx.index("(defs"):-1]
+            defs_vals = sx[sx.index("(defs"):(sx.rindex(" (attrs") if " (attrs" in sx else -1)]
             lines_sx = " ".join("(l " + " ".join(str(ord(c)) for c in l) + ")" for l in jlines)
             oracle_lines.append(f"{pid}\t(oracle {defs_vals} (lines {lines_sx}))")
             oracle_meta[pid] = (jlines, bad, payload)
@@ -325,6 +327,55 @@ def run(ctx):
                 n_reader_agree += 1
             else:
                 ctx.broken_ties.append(("jsonRead ≠ Python json on a printed line", f"{pid}: {line[:120]!r}: lean {c[:120]} python {pc[:120]}"))
+
+    # ---- the attribute surface: which traits an item derives, for every way of writing its attributes
+    probes = {k: d for k, d in progs.items() if "probe" in d}
+    pres = run_model(ctx, [f"{pid}\t{d['probe'][2]}" for pid, d in probes.items()]) if probes else {}
+    n_probe = n_probe_ok = n_probe_tie = 0
+    probe_hist = collections.Counter()
+    for pid, d in probes.items():
+        expect, want, sx = d["probe"]
+        _, ci, kind, method, shape = pid.split(":")
+        n_probe += 1
+        payload = {"id": pid, "src": d.get("src"), "attributes": sx, "expected": expect}
+        m = pres.get(pid)
+        model_has = None if not m or m[0] != "attrs" else (m[1] == "yes" if method == "to_json" else m[2] == "yes")
+        if model_has is None or model_has != (expect == "accept"):
+            ctx.broken_ties.append(("Model/Derive.lean derivesTrait ≠ the harness's reading of parse_derive_targets", f"{pid}: {sx}: model {m}, harness {expect}"))
+        # the impl blocks the real derive::expand appended to the item
+        if d.get("derived") not in (None, "none") and model_has is not None:
+            tree = c17.sexp_parse(d["derived"])
+            real = sorted(x[2][1] for x in tree[1:] if x[0] == "impl" and x[1] == "In")
+            mod = sorted((["to_json"] if m[1] == "yes" else []) + (["to_string"] if m[2] == "yes" else []))
+            n_probe_tie += real == mod
+            if real != mod:
+                ctx.broken_ties.append(("model≠impl (traits derived for an item)", f"{pid}: {sx}: derive::expand appended {real}, model {mod}"))
+        if "panic" in d:
+            ctx.report({"oracle": "crash", "where": "attr-probe"}, f"the compiler panics on {sx}: {d['panic'][:160]}", payload)
+            continue
+        accepted = "reject" not in d
+        probe_hist[(expect, "accepted" if accepted else "rejected:" + d["reject"][0])] += 1
+        if accepted != (expect == "accept"):
+            if accepted:
+                ctx.report({"oracle": "derive-attributes", "kind": "unlisted-trait-derived", "shape": shape},
+                           f"{method} is available on an item whose attributes {sx} do not list the trait", payload)
+            else:
+                payload["diagnostics"] = d["reject"][1][:400]
+                ctx.report({"oracle": "derive-attributes", "kind": "listed-trait-not-derived", "shape": shape, "stage": d["reject"][0], "class": diag_class(d["reject"][1])},
+                           f"{method} is missing ({shape}) although the item's attributes {sx} list the trait: {d['reject'][1][:160]}", payload)
+            continue
+        if not accepted:
+            if d["reject"][0] not in ("lower", "typer"):
+                ctx.report({"oracle": "late-reject", "kind": "attr-probe", "stage": d["reject"][0]}, f"a call of an underived method is rejected only in {d['reject'][0]}", payload)
+            else:
+                n_probe_ok += 1
+            continue
+        go = d["out"].get("go")
+        if go is None or go[0] != "ok" or vlib.unesc(go[1]) != want:
+            ctx.report({"oracle": "derive-attributes", "kind": "output", "shape": shape},
+                       f"{method} ({shape}) with attributes {sx} prints {(go or ['?', ''])[1][:120]!r}, expected {want!r}", payload)
+        else:
+            n_probe_ok += 1
 
     # ---- witnesses of past failures and the corpus programs that use the derives
     n_corpus = n_corpus_ok = n_recorded = n_recorded_ok = 0
@@ -409,7 +460,7 @@ def run(ctx):
             ctx.broken_ties.append(("replay file", str(e)))
     ctx.violations.sort(key=lambda v: len(v[2].get("src") or "x" * 10**6))
     cov = {
-        "evaluations": len(gen) + len(rej), "distinct_nontrivial": len(distinct) + n_rej_ok,
+        "evaluations": len(gen) + len(rej) + n_probe, "distinct_nontrivial": len(distinct) + n_rej_ok + n_probe_ok,
         "rule": "one case = one generated program (1-4 derived struct/enum definitions, 1-4 values, printing every to_json then every "
                 "to_string); non-trivial = compiled and printed; distinct by stdout. Reject stream: one hand-listed definition per "
                 "unsupported field/payload kind x {ToJson, ToString}",
@@ -422,6 +473,8 @@ def run(ctx):
                               "of_which_only_wellformed(non-finite float inside)": n_nonfinite_wellformed},
         "oracle_to_string": {"checked": n_str, "equal_to_join_rendering": n_str_ok},
         "jsonRead_vs_python_json": {"lines": n_reader, "same_parse": n_reader_agree},
+        "attribute_surface_probes": {"programs": n_probe, "as_required": n_probe_ok, "derive::expand_output_equals_model_selection": n_probe_tie,
+                                     "by_expectation_and_outcome": {f"{k[0]}->{k[1]}": v for k, v in sorted(probe_hist.items())}},
         "corpus_and_witness_programs": {"programs": n_corpus, "ok": n_corpus_ok, "with_output_recorded_from_real_Go": n_recorded,
                                         "recorded_output_reproduced": n_recorded_ok},
         "float_%g_cross_validation": {"floats": len(floats), "same_text": n_flt_ok,
